@@ -18,8 +18,9 @@ SPEC = {
         'T18 clear()/__init__ reset all structures. Not decided: the pointer arithmetic inside the ring splices '
         '(which end is oldest), hence not the identity of the eviction victim; equality of contents with a reference '
         'cache for all histories.'
-        ' T28: every unlink statement X[a][b] = X[c] of the recency ring has c == b.'),
-    'decided': ['splice shape', 'T1 mutator closure', 'T2 storage/table/ring lock-step on all paths', 'T7 capacity guard',
+        ' T28: every unlink statement X[a][b] = X[c] of the recency ring has c == b.'
+        " T9.consume: LRI.update feeds every source. T14.default: pop's sentinel-default protocol. T28: an unlink rewires both neighbours."),
+    'decided': ['sources consumed', 'sentinel-default protocol', 'splice shape', 'T1 mutator closure', 'T2 storage/table/ring lock-step on all paths', 'T7 capacity guard',
                 'T9/T11 counter discipline, on_miss caching', 'T8 copy is a pure observer using ring order',
                 'T18 reset completeness'],
     'declined': ['ring splice pointer arithmetic / identity of the eviction victim',
